@@ -181,8 +181,29 @@ var projSeq struct {
 	n int
 }
 
-// runCase generates and builds one project. keep leaves the scratch directory in place.
+// envFlake recognises a failure of the shared Go build cache (an export file of a standard
+// library package vanished while another process trimmed or rebuilt the cache). It says nothing
+// about generated code; the project is re-run, and a persistent flake is reported as broken
+// machinery (exit 2), never as a violation.
+func envFlake(out string) bool {
+	return strings.Contains(out, "could not import") && strings.Contains(out, "no such file or directory")
+}
+
+// runCase generates and builds one project (re-run up to twice on a build-cache flake).
 func runCase(c *Case, keep bool) Result {
+	var r Result
+	for attempt := 0; attempt < 3; attempt++ {
+		r = runCaseOnce(c, keep)
+		if !envFlake(r.GenOut) && !envFlake(r.BuildOut) {
+			return r
+		}
+	}
+	probe.Cleanup()
+	common.Broken("Go build cache failure persists for %s:\n%s\n%s", c.ID, r.GenOut, r.BuildOut)
+	return r
+}
+
+func runCaseOnce(c *Case, keep bool) Result {
 	projSeq.Lock()
 	projSeq.n++
 	name := fmt.Sprintf("p%05d", projSeq.n)
@@ -335,6 +356,7 @@ var (
 	mainB = Layout{"follow-schema", "follow-schema", 2, "autobind"}
 	mainC = Layout{"follow-schema", "follow-schema", 0, "generated"}
 	mainD = Layout{"single-file", "none", 2, "generated"}
+	mainE = Layout{"follow-schema", "single-file", 2, "generated"}
 )
 
 // quickCases: the most fault-revealing combinations, one wave on 16 cores.
@@ -365,7 +387,7 @@ func quickCases() []*Case {
 }
 
 // thoroughCases: (A) every layout x every option set with <= 1 deviation; (B) every option set
-// with exactly 2 deviations under the two main layouts; (C) small feature schemas and all naming
+// with exactly 2 deviations under three main layouts; (C) small feature schemas and all naming
 // projects under the main layouts.
 func thoroughCases() []*Case {
 	var cs []*Case
@@ -400,7 +422,7 @@ func thoroughCases() []*Case {
 			add(featureCase(Config{Layout: l, Dev: d}))
 		}
 	}
-	for _, l := range []Layout{mainA, mainB} {
+	for _, l := range []Layout{mainA, mainB, mainE} {
 		for _, d := range optionSets(l, 2) {
 			add(featureCase(Config{Layout: l, Dev: d}))
 		}
@@ -768,7 +790,7 @@ func bounds(tier string, cases []*Case) map[string]any {
 		"distinct_schemas":  len(schemas),
 		"distinct_configs":  len(cfgs),
 		"max_deviations":    2,
-		"thorough_product":  "all 24 layouts x (<=1 deviation) + 2 main layouts x (exactly 2 deviations) + small feature schemas x 3 layouts + naming projects x 2 layouts",
+		"thorough_product":  "all 24 layouts x (<=1 deviation) + 3 main layouts x (exactly 2 deviations) + small feature schemas x 3 layouts + naming projects x 2 layouts",
 		"quick_selection":   "12 feature-schema configurations (each with 0 or 2 deviations, all exec/resolver layouts, both worker limits, both model modes) + packed naming projects",
 		"feature_schema":    "4 files: objects, interfaces incl. interface-implements-interface, unions, enums, inputs (recursive, @oneOf), nested list/non-null wrappers, defaults of every kind, custom directives on all 19 locations, built-in directives, subscription, extend type/enum/union/input across files, descriptions with quotes/backticks/comment terminators",
 	}
